@@ -32,6 +32,9 @@ pub struct Case {
     pub codec: Codec,
     pub bs: u64,
     pub win: Option<WinSpec>,
+    /// probe of known finding F22
+    #[serde(default)]
+    pub allow_f22: bool,
 }
 
 fn xorshift(s: &mut u64) -> u64 {
@@ -84,11 +87,24 @@ impl Property for C05 {
     fn probes(&self, _tier: Tier) -> Vec<(String, Case)> {
         let t0 = 1_577_934_245_123_456_000i64;
         let log = TextLog { tmpl: 0, off: 0, header: vec![], msgs: vec![TMsg { t: t0, body: B::from(" #a x"), cont: vec![] }, TMsg { t: t0 + 1000, body: B::from(" #b y"), cont: vec![] }], final_nl: true };
+        // F22: header 39 bytes, first message ends on byte 63, second line fills block 1 exactly
+        let f22 = TextLog {
+            tmpl: 3,
+            off: 0,
+            header: vec![B::from("<=pYsQa,.OA"), B::from("abcdefghijklmnopqrstuvwxyz")],
+            msgs: vec![
+                TMsg { t: 931622400_000_000_000, body: B::from(" #feb aa"), cont: vec![] },
+                TMsg { t: 931622400_000_000_000, body: B::from(" #geb 3xkeby!{bv`x$.ZNKaS.wk|^uH@Bp&wub>uwF.!L.]"), cont: vec![] },
+                TMsg { t: 931622400_013_558_000, body: B::from(" "), cont: vec![] },
+            ],
+            final_nl: true,
+        };
         vec![
-            ("xz-sha256".into(), Case { content: Content::Text(log), codec: Codec::Xz { preset: 6, check: 3 }, bs: 65536, win: None }),
-            ("gz-big-incompressible-bs0x100000".into(), Case { content: Content::BigText { seed: 7, lines: 6000, body: 120 }, codec: Codec::Gz { level: 6, fname: true, fcomment: false, fextra: false, mtime: 1 }, bs: 0x100000, win: None }),
-            ("gz-big-incompressible-bs0x20000".into(), Case { content: Content::BigText { seed: 9, lines: 6000, body: 120 }, codec: Codec::Gz { level: 1, fname: false, fcomment: false, fextra: false, mtime: 1 }, bs: 0x20000, win: None }),
-            ("lz4-big-bs100000".into(), Case { content: Content::BigText { seed: 11, lines: 4000, body: 100 }, codec: Codec::Lz4 { block: 0, linked: true, content_checksum: true, block_checksums: false, content_size: false }, bs: 100000, win: None }),
+            ("streamed-block-alignment-gz".into(), Case { content: Content::Text(f22), codec: Codec::Gz { level: 6, fname: false, fcomment: false, fextra: false, mtime: 1 }, bs: 64, win: None, allow_f22: true }),
+            ("xz-sha256".into(), Case { content: Content::Text(log), codec: Codec::Xz { preset: 6, check: 3 }, bs: 65536, win: None, allow_f22: false }),
+            ("gz-big-incompressible-bs0x100000".into(), Case { content: Content::BigText { seed: 7, lines: 6000, body: 120 }, codec: Codec::Gz { level: 6, fname: true, fcomment: false, fextra: false, mtime: 1 }, bs: 0x100000, win: None, allow_f22: false }),
+            ("gz-big-incompressible-bs0x20000".into(), Case { content: Content::BigText { seed: 9, lines: 6000, body: 120 }, codec: Codec::Gz { level: 1, fname: false, fcomment: false, fextra: false, mtime: 1 }, bs: 0x20000, win: None, allow_f22: false }),
+            ("lz4-big-bs100000".into(), Case { content: Content::BigText { seed: 11, lines: 4000, body: 100 }, codec: Codec::Lz4 { block: 0, linked: true, content_checksum: true, block_checksums: false, content_size: false }, bs: 100000, win: None, allow_f22: false }),
         ]
     }
     fn strategy(&self, tier: Tier) -> BoxedStrategy<Case> {
@@ -108,7 +124,7 @@ impl Property for C05 {
                 ];
                 (content, Just(codec), Just(bs), win_spec_or_none())
             })
-            .prop_map(|(content, codec, bs, win)| Case { content, codec, bs, win })
+            .prop_map(|(content, codec, bs, win)| Case { content, codec, bs, win, allow_f22: false })
             .boxed()
     }
     fn exec(&self, case: &Case, _ctx: &Ctx) -> Outcome {
@@ -140,6 +156,10 @@ impl Property for C05 {
             Content::Text(log) => log.tz_arg(),
             _ => "-t=+00:00".to_string(),
         };
+        let hazard = case.codec.is_streamed() && matches!(case.content, Content::Text(_) | Content::BigText { .. }) && streamed_alignment_hazard(&data, case.bs);
+        if hazard && !case.allow_f22 {
+            return Outcome::discard("streamed block-alignment hazard (known finding F22)");
+        }
         let plain_dir = sc.subdir("plain");
         let plain = plain_dir.join(&name);
         std::fs::write(&plain, &data).unwrap();
@@ -179,7 +199,13 @@ impl Property for C05 {
             }
         }
         if a.stdout != b.stdout {
-            let sig = if matches!(case.codec, Codec::Xz { check: 3, .. }) { "xz-sha256" } else { "differs" };
+            let sig = if matches!(case.codec, Codec::Xz { check: 3, .. }) {
+                "xz-sha256"
+            } else if hazard {
+                "streamed-block-alignment"
+            } else {
+                "differs"
+            };
             return Outcome::fail(
                 sig,
                 format!("content={} codec={:?} bs={} window={:?} container_status={:?} plain_status={:?} container_stderr={:?} {}", kind, case.codec, case.bs, w.args(), b.status, a.status, crate::bytes::esc_trunc(&b.stderr, 300), diff_msg(&b.stdout, &a.stdout)),
